@@ -48,6 +48,8 @@ DSDL = {
     'st/F.1.0.dsdl': 'float16 h\nfloat32 s\nfloat64 d\ntruncated float16 th\ntruncated float32 ts\n@sealed\n',
     'st/Quirk.1.0.dsdl': 'uint4[<=3] sn\ntruncated uint4[<=3] tn\nfloat16[<=2] hv\n@sealed\n',
     'st/SArr.1.0.dsdl': 'int4[<=2] a\nint15[<=2] b\n@sealed\n',
+    'st/Empty.1.0.dsdl': '@sealed\n',                                    # a value of this type occupies no token
+    'st/EArr.1.0.dsdl': 'st.Empty.1.0[<=16] e\nuint8 x\n@sealed\n',      # count may exceed the number of tokens
     'st/Del.1.0.dsdl': 'uint8 v\nuint16[<=2] w\n@extent 64\n',
     'st/Un.1.0.dsdl': '@union\nuint8 small\ndep.Pt.1.0 pt\nfloat32[2] fl\nst.Del.1.0 del\n@sealed\n',
     'st/7509.Top.1.0.dsdl': (
@@ -90,6 +92,9 @@ VECTORS = [
     ('st.Quirk.1.0', '2 1 2  0  0', '0221' '00' '00'),
     # a=[-1,3]: 02, f | 3<<4 = 3f; b=[-2]: 01, -2 as 15 bit = 7ffe -> fe 7f (one pad bit)
     ('st.SArr.1.0', '2 -1 3  1 -2', '02' '3f' '01' 'fe7f'),
+    ('st.Empty.1.0', '', ''),
+    # nine token-less elements: only the prefix 09, then x=200 (regression: the count exceeds the token count)
+    ('st.EArr.1.0', '9 200', '09c8'),
     # v=7; w=[0x1234]: prefix 01, 34 12 (top-level object: no delimiter header)
     ('st.Del.1.0', '7 1 4660', '07013412'),
     ('st.Un.1.0', '0 200', '00c8'),
@@ -132,6 +137,8 @@ REJECTS = [
     ('st.Top.1.0', '0 0  0 0  0 0 0 0  3 0 0 0 0 0 0  0 0  0', 'ValueError'),         # Del[<=2] with 3
     ('st.Top.1.0', '0 16  0 0  0 0 0 0  0  0 0  0', 'ValueError'),                    # nested uint4 = 16
     ('st.Svc.Request.1.0', '0 3 0 0 0 0 0 0', 'ValueError'),
+    ('st.EArr.1.0', '17 0', 'ValueError'),                       # 17 token-less elements for [<=16]
+    ('st.EArr.1.0', '999999999 0', 'StorageRange'),              # absurd count, not handed to the generated code
 ]
 
 BAD_REQUESTS = [
@@ -363,16 +370,16 @@ def parse_ok_ser(resp: str) -> typing.Optional[bytes]:
 def run_vectors(chk: Checker, tgt: PyTarget, label: str) -> None:
     reqs = []
     for tid, toks, hx in VECTORS:
-        reqs.append('ser %s 300 z %s' % (tid, norm(toks)))
+        reqs.append(('ser %s 300 z %s' % (tid, norm(toks))).strip())
         reqs.append('des %s fresh %s' % (tid, hx or '-'))
     resp = tgt.run(reqs)
     for i, (tid, toks, hx) in enumerate(VECTORS):
         if ser_known_broken(tid, resp[2 * i]):
             chk.observe('serialize() of %s [%s] raises: %s' % (tid, norm(toks), resp[2 * i]))
         else:
-            chk.ok('A-vectors' + label, resp[2 * i] == 'ok %d %s' % (len(hx) // 2, hx),
-                   'ser %s [%s]: expected %s, got %s' % (tid, norm(toks), hx, resp[2 * i]))
-        chk.ok('A-vectors' + label, resp[2 * i + 1] == 'ok - ' + norm(toks),
+            chk.ok('A-vectors' + label, resp[2 * i] == 'ok %d %s' % (len(hx) // 2, hx or '-'),
+                   'ser %s [%s]: expected %s, got %s' % (tid, norm(toks), hx or '-', resp[2 * i]))
+        chk.ok('A-vectors' + label, resp[2 * i + 1] == ('ok - ' + norm(toks)).strip(),
                'des %s %s: expected [%s], got %s' % (tid, hx, norm(toks), resp[2 * i + 1]))
 
 
@@ -494,7 +501,7 @@ def main(argv: typing.Optional[typing.List[str]] = None) -> int:
         resp = tgt.run(['des %s fresh -' % tid for tid in db.ids()])
         for tid, a in zip(db.ids(), resp):
             toks = a.split()[2:]
-            chk.ok('D-empty', a.startswith('ok - ') and all(x == '0' for x in toks), 'des %s of empty input: %s' % (tid, a))
+            chk.ok('D-empty', a.split()[:2] == ['ok', '-'] and all(x == '0' for x in toks), 'des %s of empty input: %s' % (tid, a))
 
         # ---- E: rejects / bad requests ------------------------------------------------------------------------------
         resp = tgt.run(['ser %s 4096 z %s' % (tid, norm(toks)) for tid, toks, _ in REJECTS])
